@@ -96,8 +96,30 @@ def assembledExact (net : Net α) (s : State α) : Bool :=
     let p := aget s.post n
     (p.1 == sc * a.1) && (p.2 == sc * a.2))
 
+/-- Scalar kernels, one per block: `op damp` / `args x0 x1 y0 y1 s` → `<id> <d> <ok>`;
+`op rescale` / `args x0 x1 s` → `<id> <eta> <ok>`; `op rootward0` / `args c0 c1 l0 l1` → `<id> <p0> <p1> <skip>`. -/
+def runOp (C : Carrier α) (id op : String) (blk : List (List String)) : IO Unit := do
+  let b (x : Bool) : String := if x then "1" else "0"
+  let res : Option String := do
+    let a ← mapAll C.parse (← field blk "args")
+    match op, a with
+    | "damp", [x0, x1, y0, y1, s] =>
+      some (C.render (damp (x0, x1) (y0, y1) s) ++ " " ++ b (dampOk (x0, x1) (y0, y1) s))
+    | "rescale", [x0, x1, s] => some (C.render (rescale (x0, x1) s) ++ " " ++ b (rescaleOk (x0, x1)))
+    | "rootward0", [c0, c1, l0, l1] =>
+      match rootwardT0 (c0, c1) (l0, l1) with
+      | some p => some (C.render p.1 ++ " " ++ C.render p.2 ++ " 0")
+      | none => some (C.render c0 ++ " " ++ C.render c1 ++ " 1")
+    | _, _ => none
+  match res with
+  | some r => IO.println s!"{id} {r}"
+  | none => IO.println s!"{id} bad-op"
+
 def runCase (C : Carrier α) (blk : List (List String)) : IO Unit := do
   let id := (((field blk "case").bind List.head?).getD "?")
+  if let some op := (field blk "op").bind List.head? then
+    runOp C id op blk
+    return
   let parsed : Option (Cfg α × Net α × Sched α × Nat × Bool) := do
     let cfgl ← mapAll C.parse (← field blk "cfg")
     let cfg : Cfg α ← match cfgl with
